@@ -4,7 +4,8 @@
    are GENERATED from /repo on every run (Generated/SdssIds.v). *)
 From Coq Require Import ZArith List Bool.
 Import ListNotations.
-From PV Require Import Lib.Bits Lib.NumpyInt Generated.SdssIds C06.Model C06.Proofs C06.Typed C06.TypedProofs.
+From PV Require Import Lib.Bits Lib.NumpyInt C06.Strings C06.StringProofs Generated.SdssIds C06.Model C06.Proofs C06.Typed
+  C06.TypedProofs C06.Unwrap C06.UnwrapProofs.
 Open Scope Z_scope.
 
 (* the range checks in the source are exactly the documented ranges *)
@@ -175,6 +176,199 @@ Theorem C06_specobjid_any_integer_type_rejects : forall ts p f m r l i, all_fit 
 Proof. exact specobjid_typed_rejects. Qed.
 Print Assumptions C06_specobjid_any_integer_type_rejects.
 
+(* ================= round 5 ================= *)
+
+(* ---- the whole call, every argument a Python int or an array (any mix), defaults included ---- *)
+
+Theorem C06_objid_model_total : forall d run camcol field objnum rerun sky ff,
+  objid_model d run camcol field objnum rerun sky ff =
+  let n := length (promote run) in
+  let cols := objid_cols d run camcol field objnum rerun sky ff in
+  if forallb (fun col => Nat.eqb (length col) n) cols then
+    let rows := zip_rows cols n in
+    if forallb objid_doc_ranges rows then Ok (map (pack objid_table) rows) else ValueError
+  else ValueError.
+Proof. exact objid_model_total. Qed.
+Print Assumptions C06_objid_model_total.
+
+Theorem C06_objid_never_other_error : forall d run camcol field objnum rerun sky ff,
+  objid_model d run camcol field objnum rerun sky ff <> OtherError.
+Proof. exact objid_model_never_other. Qed.
+Print Assumptions C06_objid_never_other_error.
+
+Theorem C06_specobjid_model_total : forall plate fiber mjd run2d line index,
+  specobjid_model plate fiber mjd run2d line index =
+  match line, index with
+  | Some _, Some _ => ValueError
+  | _, _ =>
+    let n := length (promote plate) in
+    let li := match line with Some a => promote a | None => repeat 0 n end in
+    let ix := match index with Some a => promote a | None => repeat 0 n end in
+    let cols := [promote plate; promote fiber; map (fun z => z - 50000) (promote mjd); r2col run2d; li; ix] in
+    if forallb (fun col => Nat.eqb (length col) n) cols then
+      let rows := zip_rows cols n in
+      if forallb specobjid_doc_ranges rows then Ok (map spec_row_pack rows) else ValueError
+    else ValueError
+  end.
+Proof. exact specobjid_model_total. Qed.
+Print Assumptions C06_specobjid_model_total.
+
+Theorem C06_specobjid_never_other_error : forall plate fiber mjd run2d line index,
+  specobjid_model plate fiber mjd run2d line index <> OtherError.
+Proof. exact specobjid_model_never_other. Qed.
+Print Assumptions C06_specobjid_never_other_error.
+
+(* the signature defaults, None replacements and broadcast constants GENERATED from the source are the documented
+   rerun=301, skyversion=2, firstfield=0 *)
+Theorem C06_objid_call_defaults : forall run camcol field objnum rerun sky ff,
+  objid_call run camcol field objnum rerun sky ff =
+  objid_model 2 run camcol field objnum (dflt rerun 301) (dflt sky 2) (dflt ff 0).
+Proof. exact objid_call_defaults. Qed.
+Print Assumptions C06_objid_call_defaults.
+
+Theorem C06_objid_call_documented : forall run camcol field objnum rerun sky ff,
+  objid_call run camcol field objnum rerun sky ff = doc_objid_call run camcol field objnum rerun sky ff.
+Proof. exact objid_call_documented. Qed.
+Print Assumptions C06_objid_call_documented.
+
+(* every argument is promoted and shape-checked; line/index exclusivity is tested first *)
+Theorem C06_glue_obligations :
+  default_skyversion_value = 2 /\
+  covers 7 2 objid_shape_checked = true /\ covers 7 7 objid_scalar_promoted = true /\
+  specobjid_line_index_exclusive = true /\ covers 6 0 specobjid_shape_checked = true.
+Proof. exact glue_obligations. Qed.
+Print Assumptions C06_glue_obligations.
+
+(* ---- unwrap direction at the storage-type level ---- *)
+
+Theorem C06_unwrap_range_analysis_sound : forall t lo hi e T l h, ucheck t lo hi e = Some (T, l, h) ->
+  forall z, fits t z = true -> lo <= z <= hi ->
+  ueval (t, z) e = TVal T (uzeval z e) /\ l <= uzeval z e <= h /\ in_type T l h = true.
+Proof. exact ucheck_sound. Qed.
+Print Assumptions C06_unwrap_range_analysis_sound.
+
+(* field names and storage types of both records, the accepted integer type and the type strings are converted to *)
+Theorem C06_unwrap_record_dtypes :
+  record_names unwrap_objid_record = doc_objid_names /\ record_types unwrap_objid_record = repeat I32 7 /\
+  record_names unwrap_spec_record = doc_spec_names /\ record_types unwrap_spec_record = repeat I32 5 /\
+  unwrap_spec_line_names = (nth 4 doc_spec_names [], [105; 110; 100; 101; 120]).
+Proof. exact unwrap_record_dtypes. Qed.
+Print Assumptions C06_unwrap_record_dtypes.
+
+Theorem C06_unwrap_input_types :
+  unwrap_objid_intype = I64 /\ unwrap_objid_strtype = I64 /\ unwrap_spec_intype = U64 /\ unwrap_spec_strtype = U64.
+Proof. exact unwrap_input_types. Qed.
+Print Assumptions C06_unwrap_input_types.
+
+(* for EVERY int64 / uint64 word, every record field (shift, mask, +50000, store into the 32-bit field) is computed
+   without wrap: the stored record is the unbounded-integer answer *)
+Theorem C06_unwrap_objid_any_word : forall id, fits I64 id = true ->
+  unwrap_typed unwrap_objid_record (I64, id) = map (TVal I32) (unwrap_objid_model id).
+Proof. exact unwrap_objid_typed_any. Qed.
+Print Assumptions C06_unwrap_objid_any_word.
+
+Theorem C06_unwrap_spec_any_word : forall id, fits U64 id = true ->
+  unwrap_typed unwrap_spec_record (U64, id) =
+  map (TVal I32) [unwrap_spec_plate id; unwrap_spec_fiber id; unwrap_spec_mjd id; unwrap_spec_run2d_int id; unwrap_spec_line id].
+Proof. exact unwrap_spec_typed_any. Qed.
+Print Assumptions C06_unwrap_spec_any_word.
+
+(* unwrap(pack v) = v with argument arrays of ANY integer types and the record's own storage types *)
+Theorem C06_objid_roundtrip_any_integer_type : forall ts vs, length vs = 7%nat -> all_fit ts vs ->
+  objid_doc_ranges vs = true ->
+  exists id, objid_typed_row (combine ts vs) = TOk I64 id /\
+  unwrap_typed unwrap_objid_record (I64, id) = map (TVal I32) vs.
+Proof. exact objid_typed_roundtrip. Qed.
+Print Assumptions C06_objid_roundtrip_any_integer_type.
+
+Theorem C06_specobjid_roundtrip_any_integer_type : forall ts p f m r l i, all_fit ts [p; f; m; r; l; i] ->
+  specobjid_doc_ranges [p; f; m - 50000; r; l; i] = true -> l = 0 \/ i = 0 ->
+  exists id, specobjid_typed_row (combine ts [p; f; m; r; l; i]) = TOk U64 id /\
+             unwrap_typed unwrap_spec_record (U64, id) = map (TVal I32) [p; f; m; r; l + i].
+Proof. exact specobjid_typed_roundtrip. Qed.
+Print Assumptions C06_specobjid_roundtrip_any_integer_type.
+
+(* ---- decimal strings ---- *)
+
+Theorem C06_int_of_decimal : forall n, 0 <= n -> parse_pyint (dec n) = Some n.
+Proof. exact parse_pyint_dec. Qed.
+Print Assumptions C06_int_of_decimal.
+
+Theorem C06_decimal_of_int_canonical : forall ds, canonical ds -> digits_of (undec 0 ds) = ds.
+Proof. exact digits_of_undec. Qed.
+Print Assumptions C06_decimal_of_int_canonical.
+
+Theorem C06_unwrap_objid_decimal_string : forall id, 0 <= id < 2 ^ 63 ->
+  unwrap_objid_of_string (dec id) = XRows (unwrap_objid_model id).
+Proof. exact unwrap_objid_decimal. Qed.
+Print Assumptions C06_unwrap_objid_decimal_string.
+
+(* in particular for IDs with bit 63 set (plate >= 8192) *)
+Theorem C06_unwrap_spec_decimal_string : forall id, 0 <= id < 2 ^ 64 ->
+  unwrap_spec_of_string (dec id) = XRows (unwrap_specobjid_model id).
+Proof. exact unwrap_spec_decimal. Qed.
+Print Assumptions C06_unwrap_spec_decimal_string.
+
+Theorem C06_unwrap_spec_decimal_string_overflow : forall z, 2 ^ 64 <= z -> unwrap_spec_of_string (dec z) = XOther.
+Proof. exact unwrap_spec_decimal_overflow. Qed.
+Print Assumptions C06_unwrap_spec_decimal_string_overflow.
+
+(* ---- the run2d tag 'vN_M_P', byte level; pattern, format template, checks and dtype are GENERATED ---- *)
+
+Theorem C06_run2d_tag_parses : forall a N M P, 0 <= N -> 0 <= M -> 0 <= P ->
+  re_match a run2d_pattern (format_pieces run2d_format [N; M; P]) = Some [N; M; P].
+Proof. exact run2d_tag_parses. Qed.
+Print Assumptions C06_run2d_tag_parses.
+
+Theorem C06_run2d_tag_canonical : forall d1 d2 d3, canonical d1 -> canonical d2 -> canonical d3 ->
+  let s := [118] ++ chars d1 ++ [95] ++ chars d2 ++ [95] ++ chars d3 in
+  re_match true run2d_pattern s = Some [undec 0 d1; undec 0 d2; undec 0 d3] /\
+  format_pieces run2d_format [undec 0 d1; undec 0 d2; undec 0 d3] = s.
+Proof. exact run2d_tag_canonical. Qed.
+Print Assumptions C06_run2d_tag_canonical.
+
+Theorem C06_run2d_tag_is_documented : forall r, 0 <= r < 2 ^ 14 -> run2d_tag r = doc_tag r.
+Proof. exact tag_is_documented. Qed.
+Print Assumptions C06_run2d_tag_is_documented.
+
+(* all 16384 codes: the tag is read back as the code by sdss_specobjid's own string decoding *)
+Theorem C06_run2d_tag_read_back : forall r, 0 <= r < 2 ^ 14 -> run2d_of_string (run2d_tag r) = R2val r.
+Proof. exact run2d_of_string_tag. Qed.
+Print Assumptions C06_run2d_tag_read_back.
+
+(* the fixed-width string field ('U8') holds every tag completely *)
+Theorem C06_run2d_tag_fits_field : forall r, 0 <= r < 2 ^ 14 -> run2d_tag_stored r = run2d_tag r.
+Proof. exact run2d_tag_fits. Qed.
+Print Assumptions C06_run2d_tag_fits_field.
+
+Theorem C06_unwrap_tag_roundtrip : forall id, run2d_of_string (unwrap_spec_tag id) = R2val (unwrap_spec_run2d_int id).
+Proof. exact unwrap_tag_roundtrip. Qed.
+Print Assumptions C06_unwrap_tag_roundtrip.
+
+Theorem C06_specobjid_string_and_integer_agree : forall p f m r l i, 0 <= r < 2 ^ 14 ->
+  specobjid_call p f m (RStr (run2d_tag r)) l i = specobjid_call p f m (RInt r) l i.
+Proof. exact specobjid_call_tag. Qed.
+Print Assumptions C06_specobjid_string_and_integer_agree.
+
+(* the source anchors the pattern and enforces 5<=N<=6, 0<=M,P<=99 (false before pydl 0f16a43) ... *)
+Theorem C06_run2d_tag_ranges_enforced : tag_ranges_enforced = true.
+Proof. exact tag_ranges_enforced_now. Qed.
+Print Assumptions C06_run2d_tag_ranges_enforced.
+
+(* ... hence every run2d string the function accepts is a documented form with the documented value *)
+Theorem C06_run2d_accepted_strings_documented : forall s z,
+  run2d_of_string s = R2val z -> doc_run2d_of_string s = Some z.
+Proof. exact run2d_accepted_strings_documented. Qed.
+Print Assumptions C06_run2d_accepted_strings_documented.
+
+(* ... and if it did not, 'v5_100_0' and 'v6_0_0' would collide (the defect found in this round) *)
+Theorem C06_run2d_tag_collision_if_unenforced : tag_ranges_enforced = false ->
+  run2d_of_string [118; 53; 95; 49; 48; 48; 95; 48] = R2val 10000 /\
+  run2d_of_string [118; 54; 95; 48; 95; 48] = R2val 10000 /\
+  doc_run2d_of_string [118; 53; 95; 49; 48; 48; 95; 48] = None.
+Proof. exact tag_ranges_not_enforced_collision. Qed.
+Print Assumptions C06_run2d_tag_collision_if_unenforced.
+
 (* non-vacuity: the documented example IDs satisfy the hypotheses *)
 Example C06_example_objid :
   checks_ok objid_checks [2; 301; 3704; 3; 0; 91; 146] = true /\
@@ -183,4 +377,18 @@ Proof. split; vm_compute; reflexivity. Qed.
 Example C06_example_specobjid :
   checks_ok specobjid_checks [4055; 408; 5359; 700; 0; 0] = true /\
   specobjid_expr 4055 408 5359 700 0 0 = 4565636362342690816.
+Proof. split; vm_compute; reflexivity. Qed.
+Example C06_example_unwrap_record :
+  unwrap_typed unwrap_spec_record (U64, 4565636362342690816) = map (TVal I32) [4055; 408; 55359; 700; 0] /\
+  unwrap_spec_tag 4565636362342690816 = [118; 53; 95; 55; 95; 48] /\
+  unwrap_spec_of_string (dec 4565636362342690816) = XRows [4055; 408; 55359; 700; 5; 7; 0; 0].
+Proof. repeat split; vm_compute; reflexivity. Qed.
+Example C06_example_strings :
+  parse_pyint [32; 43; 49; 95; 48; 10] = Some 10 /\ parse_pyint [49; 95; 95; 48] = None /\
+  canonical [1; 0; 0] /\ run2d_of_string [118; 53; 95; 49; 48; 48; 95; 48] = R2ValueError /\
+  run2d_of_string [118; 53; 95; 55; 95; 48; 120] = R2ValueError /\ run2d_of_string [118; 54; 95; 54; 51; 95; 56; 51] = R2val 16383.
+Proof. repeat split; try (vm_compute; reflexivity); try (repeat constructor; unfold digit; cbn; try discriminate; try Lia.lia). Qed.
+Example C06_example_defaults :
+  objid_call (Sc 3704) (Sc 3) (Sc 91) (Sc 146) None None None = Ok [1237661382772195474] /\
+  objid_call (Ar [3704; 3704]) (Ar [3; 3]) (Ar [91; 91]) (Ar [146; 147]) None None None = Ok [1237661382772195474; 1237661382772195475].
 Proof. split; vm_compute; reflexivity. Qed.
